@@ -43,8 +43,9 @@ def action_label(rep, a):
 
 def build_rep(m, rep):
     """msdm MDP from a gen_mdp case through the PUBLIC constructors, in the representation `rep`
-    (label types, distribution classes, list/tuple action containers, tabular or plain QuickMDP,
-    initial_state vs initial_state_dist, int vs float discount); returns the MDP and the label maps"""
+    (label types, distribution classes, list/tuple action containers, tabular or plain QuickMDP or
+    TabularMarkovDecisionProcess.from_matrices with float / integer arrays, initial_state vs initial_state_dist,
+    int vs float discount, is_absorbing returning bool / np.bool_ / int / np.int64); returns the MDP and the label maps"""
     from msdm.core.mdp.quickmdp import QuickTabularMDP, QuickMDP
     from msdm.core.distributions import DictDistribution
     from msdm.core.distributions.dictdistribution import DeterministicDistribution
@@ -104,12 +105,45 @@ def build_rep(m, rep):
             kw = {}
     if not kw:
         kw["initial_state_dist"] = DictDistribution({sl[s]: num(p) for s, p in m["init"]})
-    cls = QuickMDP if rep.get("cls") == "quick" else QuickTabularMDP
-    mdp = cls(next_state_dist=lambda s, a: trans[(si(s), ai(a))],
-              reward=lambda s, a, ns: rew.get((si(s), ai(a), si(ns)), 0.0),
-              actions=lambda s: acts[si(s)],
-              is_absorbing=lambda s: absorbing[si(s)],
-              discount_rate=g, **kw)
+    # what is_absorbing RETURNS: a bool, or a truthy / falsy 0/1 number (indicator vectors, wrapper classes)
+    ab_conv = {"bool": bool, "int": int, "np.int64": lambda x: np.int64(int(x)),
+               "np.bool_": np.bool_}[rep.get("absorbing_as", "bool")]
+    arrays = None
+    if rep.get("cls") == "from_matrices":
+        # the public array constructor TabularMarkovDecisionProcess.from_matrices; its is_absorbing returns the raw
+        # entry of absorbing_state_vec (np.bool_ for a boolean vector, np.int64 0/1 for an integer indicator vector)
+        from msdm.core.mdp.tabularmdp import TabularMarkovDecisionProcess
+        nA = m["nA"]
+        Tm, Rm, Am = np.zeros((n, nA, n)), np.zeros((n, nA, n)), np.zeros((n, nA))
+        for k, row in m["trans"].items():
+            s, a = map(int, k.split(","))
+            Am[s, a] = 1
+            for ns, p in row:
+                Tm[s, a, ns] += float(Fraction(p))
+        for (s, a, ns), r in rew.items():
+            Rm[s, a, ns] = float(r)
+        if rep.get("matrices_int"):
+            # a user's hand-made integer tables
+            Am = Am.astype(np.int64)
+            if np.all(Rm == np.round(Rm)) and np.all(np.abs(Rm) < 2.0**53):
+                Rm = Rm.astype(np.int64)
+        ab_int = rep.get("absorbing_as", "bool") in ("int", "np.int64")
+        abv = np.array([int(x) for x in absorbing], dtype=np.int64) if ab_int else np.array([bool(x) for x in absorbing])
+        iv = np.zeros(n)
+        for s, p in m["init"]:
+            iv[s] += float(Fraction(p))
+        arrays = [Tm, Rm, Am, abv, iv]
+        mdp = TabularMarkovDecisionProcess.from_matrices(
+            state_list=list(sl), action_list=list(al), initial_state_vec=iv, transition_matrix=Tm, action_matrix=Am,
+            reward_matrix=Rm, absorbing_state_vec=abv, discount_rate=g)
+        cls = QuickTabularMDP
+    else:
+        cls = QuickMDP if rep.get("cls") == "quick" else QuickTabularMDP
+        mdp = cls(next_state_dist=lambda s, a: trans[(si(s), ai(a))],
+                  reward=lambda s, a, ns: rew.get((si(s), ai(a), si(ns)), 0.0),
+                  actions=lambda s: acts[si(s)],
+                  is_absorbing=lambda s: ab_conv(absorbing[si(s)]),
+                  discount_rate=g, **kw)
     if rep.get("touch") and cls is QuickTabularMDP:
         # a base object whose cached views were already used before planning
         try:
@@ -119,6 +153,8 @@ def build_rep(m, rep):
                 raise
     def frozen():
         """snapshot of every object handed to msdm (to detect mutation of the caller's objects)"""
+        if arrays is not None:
+            return repr([(x.dtype.str, x.shape, x.tobytes()) for x in arrays])
         return repr(([(k, type(d).__name__, sorted(((type(x).__name__, repr(x)), repr(p)) for x, p in d.items()))
                       for k, d in sorted(trans.items())],
                      [(type(x).__name__, list(map(repr, x))) for x in acts],
